@@ -1,4 +1,5 @@
 import PV.Model.Labels
+import PV.Proofs.Strip
 /-!
 # C05 — every jump lands where it was meant to   (labels and their removal)
 
@@ -145,5 +146,63 @@ theorem labelIndex_erase_other (l m : String) (hne : m ≠ l) : ∀ (pre post : 
 example : specRemove [.instr ["move", "r0", "0"], .label "lbwhile1", .instr ["bge", "r0", "3", "lbwhile.end1"],
     .instr ["add", "r0", "r0", "1"], .instr ["j", "lbwhile1"], .label "lbwhile.end1"]
     = [["move", "r0", "0"], ["bge", "r0", "3", "4"], ["add", "r0", "r0", "1"], ["j", "1"]] := by decide
+
+/-! ### machine level: removing the labels does not change what the chip does (programs of direct control flow)
+
+`PV.Strip.strip` deletes the label lines of a machine program and renumbers the literal jump targets; `harness/c05.py`
+(`strip-compare`) checks per REAL output pair that the label-free output IS `strip` of the labelled one and that every kept line
+is `simple` (no `jal`, no relative branch); for those pairs the theorem below speaks about the real artefacts. -/
+
+open PV.IC10 in
+/-- **label removal preserves behaviour**: both programs produce the same effect traces and halt alike, the labelled one
+    spending extra steps on its label lines — every environment, every start state, any number of steps -/
+theorem label_removal_preserves_traces {R V : Type} [DecidableEq R] [Special R] (sem : Sem V) (lit : Nat → V) (L : Nat → Bool)
+    (env : Env V) (P : List (Instr R V)) (hok : PV.Strip.Ok sem lit L P) (s s' : St R V) (h : PV.Strip.Sim L s s') :
+    (∀ m, ∃ k, k ≤ m ∧ (run sem env P m s).trace = (run sem env (PV.Strip.strip sem lit L P) k s').trace ∧
+        (run sem env P m s).halted = (run sem env (PV.Strip.strip sem lit L P) k s').halted) ∧
+    (∀ k, ∃ m, k ≤ m ∧ (run sem env P m s).trace = (run sem env (PV.Strip.strip sem lit L P) k s').trace ∧
+        (run sem env P m s).halted = (run sem env (PV.Strip.strip sem lit L P) k s').halted) :=
+  PV.Strip.strip_traces sem lit L env P hok s s' h
+
+/-- both programs started on their first line with the same registers and stack are related -/
+theorem initial_states_related {R V : Type} (L : Nat → Bool) (regs : R → V) (mem : Nat → V) :
+    PV.Strip.Sim L (⟨regs, mem, 0, [], false⟩ : PV.IC10.St R V) ⟨regs, mem, 0, [], false⟩ :=
+  ⟨rfl, rfl, rfl, rfl, rfl⟩
+
+/-! non-vacuity: `loop: s … ; j loop` on integers satisfies the hypotheses, and its stripped form jumps to line 0 -/
+section demo
+open PV.IC10
+
+instance : Special Nat := ⟨16, 17⟩
+
+def demoSem : Sem Int :=
+  { alu := fun _ _ => 0, cond := fun _ _ => false, toAddr := fun v => if v < 0 then none else some v.toNat,
+    ofNat := fun n => (n : Int), truthy := fun v => v != 0 }
+
+def demoP : List (Instr Nat Int) :=
+  [⟨.yield, none, []⟩, ⟨.nop, none, []⟩, ⟨.store "s", none, [.num 1]⟩, ⟨.jmp, none, [.num 1]⟩]
+
+def demoL : Nat → Bool := fun i => i == 1
+
+example : PV.Strip.Ok demoSem (fun n => (n : Int)) demoL demoP := by
+  refine ⟨?_, ?_, ?_⟩
+  · intro i h
+    have : i = 1 := by simpa [demoL] using h
+    subst this; rfl
+  · intro i x h hl
+    match i, h, hl with
+    | 0, h, _ => simp [demoP] at h; subst h; rfl
+    | 1, _, hl => simp [demoL] at hl
+    | 2, h, _ => simp [demoP] at h; subst h; rfl
+    | 3, h, _ => simp [demoP] at h; subst h; rfl
+    | n + 4, h, _ => simp [demoP] at h
+  · intro n; simp [demoSem]
+
+example : PV.Strip.strip demoSem (fun n => (n : Int)) demoL demoP =
+    [⟨.yield, none, []⟩, ⟨.store "s", none, [.num 1]⟩, ⟨.jmp, none, [.num 1]⟩] := by
+  simp [PV.Strip.strip, PV.Strip.stripFrom, demoL, demoP, PV.Strip.renum, PV.Strip.isDirect, PV.Strip.renumLast, PV.Strip.renumOpnd,
+    demoSem, PV.Strip.rho]
+
+end demo
 
 end PV.Props.C05
